@@ -50,10 +50,29 @@ func (e *Enc) extCall(ins ssa.Instruction, name string, callee *ssa.Function, si
 		trust("reads n<=len(buf) bytes into buf; err==nil iff n==len(buf)")
 		buf := args[1]
 		e.byteWriteCheck(ins, ins.(ssa.CallInstruction).Common().Args[1], buf, "ReadFull", app(">", app("slen", buf.T), "0"))
-		e.havocBytesOf(h, buf)
+		if e.token {
+			e.heapGet(h, "T:uint8", "Int")
+			e.noCouple = true
+			e.havocKeyFramed(h, "T:uint8", e.allocCounter(h), []string{e.rootOf(app("sarr", buf.T))})
+			e.noCouple = false
+		} else {
+			e.havocBytesOf(h, buf)
+		}
 		rs := e.freshResults(sig, h)
 		n, er := rs[0], rs[1]
 		e.assert(implies(reach, and(app("<=", "0", n.T), app("<=", n.T, app("slen", buf.T)), app("=", app("=", er.T, "nil"), app("=", n.T, app("slen", buf.T))))))
+		if e.token {
+			// the reader's remaining content is ghost state: a full read hands over its first len(buf) bytes
+			rem := app("select", e.heapGet(h, "$rem", "B"), args[0].T)
+			L := app("slen", buf.T)
+			e.assert(implies(reach, app("=", app("=", er.T, "nil"), app(">=", app("blen", rem), L))))
+			e.assert(implies(reach, app("<=", n.T, app("blen", rem))))
+			nb := e.fresh("readbytes", "B")
+			e.assert(implies(and(reach, app("=", er.T, "nil")), app("=", nb, app("bsub", rem, "0", L))))
+			e.assert(app("=", app("blen", nb), L))
+			e.setBytes(h, buf.T, nb)
+			h.m["$rem"] = app("store", e.heapGet(h, "$rem", "B"), args[0].T, app("bsub", rem, n.T, app("blen", rem)))
+		}
 		e.havocKey(h, "$A")
 		e.assert(e.refOld(er, h))
 		e.readerConsume(ins, args[0], n.T)
@@ -78,7 +97,13 @@ func (e *Enc) extCall(ins ssa.Instruction, name string, callee *ssa.Function, si
 			parts = append(parts, app("*", pow2(uint(8*k)).String(), c))
 		}
 		if res != nil {
-			e.define(res, app("+", parts...))
+			r := e.define(res, app("+", parts...))
+			if e.token {
+				fn := map[int]string{2: "ule16", 4: "ule32", 8: "ule64"}[w]
+				if !strings.Contains(name, "bigEndian") {
+					e.assert(implies(reach, app("=", r.T, app(fn, app("bsub", e.tokBytes(h, b.T), "0", ilit(int64(w)))))))
+				}
+			}
 		}
 		return true
 	case "(encoding/binary.littleEndian).PutUint16", "(encoding/binary.littleEndian).PutUint32", "(encoding/binary.littleEndian).PutUint64",
@@ -100,11 +125,19 @@ func (e *Enc) extCall(ins ssa.Instruction, name string, callee *ssa.Function, si
 		}
 		h.m["T:uint8"] = hp
 		e.compact(h)
+		if e.token && !strings.Contains(name, "bigEndian") {
+			fn := map[int]string{2: "le16", 4: "le32", 8: "le64"}[w]
+			old := e.tokBytes(h, b.T)
+			e.setBytes(h, b.T, app("bcat", app(fn, v.T), app("bsub", old, ilit(int64(w)), app("slen", b.T))))
+		}
 		return true
 	case "encoding/hex.EncodeToString":
 		trust("returns a string of length 2*len(src)")
 		rs := e.freshResults(sig, h)
 		e.assert(implies(reach, app("=", app("strlen", rs[0].T), app("*", "2", app("slen", args[0].T)))))
+		if e.token {
+			e.assert(implies(reach, app("=", rs[0].T, app("bhex", e.tokBytes(h, args[0].T)))))
+		}
 		e.setResult(res, rs)
 		return true
 	case "encoding/hex.DecodeString":
@@ -209,6 +242,25 @@ func (e *Enc) extCall(ins ssa.Instruction, name string, callee *ssa.Function, si
 	case "log.Fatal", "log.Fatalf", "log.Fatalln", "os.Exit", "log.Panic", "log.Panicf", "log.Panicln":
 		e.oblige("exit", callee.Name(), "", pos, not(reach))
 		e.defaultCall(ins, sig, res, map[string]bool{}, "")
+		return true
+	}
+	if hf, ok := map[string][2]string{
+		"github.com/libsv/go-bk/crypto.Sha256d":   {"bsha256d", "32"},
+		"github.com/libsv/go-bk/crypto.Sha256":    {"bsha256", "32"},
+		"github.com/libsv/go-bk/crypto.Hash160":   {"bhash160", "20"},
+		"github.com/libsv/go-bk/crypto.Ripemd160": {"bripemd160", "20"},
+		"github.com/libsv/go-bk/crypto.Sha1":      {"bsha1", "20"},
+	}[name]; ok {
+		trust("deterministic hash of the input bytes: returns a fresh slice of fixed length and does not modify its argument")
+		rs := e.freshResults(sig, h)
+		e.havocKey(h, "$A")
+		e.assertFresh(rs[0], h)
+		e.assert(implies(reach, and(app("=", app("slen", rs[0].T), hf[1]), app("distinct", app("sarr", rs[0].T), "nil"))))
+		if e.token {
+			e.needB = true
+			e.assert(implies(reach, app("=", e.tokBytes(h, rs[0].T), app(hf[0], e.tokBytes(h, args[0].T)))))
+		}
+		e.setResult(res, rs)
 		return true
 	}
 	if strings.HasPrefix(name, "(*strings.Builder).") {
